@@ -19,7 +19,7 @@ def sh(cmd, cwd=None, timeout=3000):
 
 def main():
     wt, sn, pid = sys.argv[1:4]
-    checks = sys.argv[4:] or [pid]
+    checks = [pid] + [c for c in sys.argv[4:] if c != pid]
     sd = os.path.join(wt, "_seed", sn)
     patch = os.path.join(sd, "patch.diff")
     meta = json.load(open(os.path.join(sd, "meta.json")))
